@@ -145,9 +145,12 @@ def _migrate_csv_to_rules(csv_file: str, config_dir: str, backup: bool = True) -
             # newline='' keeps the file's own line endings (CRLF settings stay CRLF)
             with open(settings_path, 'r', encoding='utf-8', newline='') as f:
                 settings_content = f.read()
-            # (an active setting, not a commented-out '# merchants_file: ...' line)
+            # (an active top-level setting with a value: not a commented-out
+            # '# merchants_file: ...' line and not an empty 'merchants_file:' key,
+            # which the loader treats as "not set")
             import re
-            if not re.search(r'^[ \t]*merchants_file[ \t]*:', settings_content, re.MULTILINE):
+            if not re.search(r'''^merchants_file[ \t]*:[ \t]*(?!(~|null|Null|NULL|""|\'\')?[ \t]*(#.*)?\r?$)\S''',
+                             settings_content, re.MULTILINE):
                 tmp_settings = settings_path + '.tmp'
                 with open(tmp_settings, 'w', encoding='utf-8', newline='') as f:
                     f.write(settings_content)
